@@ -340,8 +340,16 @@ func genG02(repo string, w *Out) error {
 	var prefix, sep string
 	var suffix, tail []string
 	seenTrailerIf := false
+	// the local that holds the reason text may have any name: normalise it to "text"
+	textName := "text"
+	if as, ok := who.Body.List[0].(*ast.AssignStmt); ok && len(as.Lhs) == 1 {
+		if id, ok := as.Lhs[0].(*ast.Ident); ok {
+			textName = id.Name
+		}
+	}
+	reText := regexp.MustCompile(`\b` + regexp.QuoteMeta(textName) + `\b`)
 	for si, s := range who.Body.List {
-		src := pc.Src(s)
+		src := reText.ReplaceAllString(pc.Src(s), "text")
 		if is, ok := s.(*ast.IfStmt); ok && pc.Src(is.Cond) == "len(res.Trailer) > 0" {
 			seenTrailerIf = true
 			state := 0 // 0 before loop, 1 after loop
@@ -409,7 +417,7 @@ func genG02(repo string, w *Out) error {
 	if statusFmt == "" || !seenTrailerIf {
 		return fmt.Errorf("writeHeaderOnlyResponse: status line or trailer block not found")
 	}
-	textSrc := pc.Src(who.Body.List[0]) + " ; " + pc.Src(who.Body.List[1])
+	textSrc := reText.ReplaceAllString(pc.Src(who.Body.List[0])+" ; "+pc.Src(who.Body.List[1]), "text")
 	wantText := `text := res.Status ; if text == "" { text = http.StatusText(res.StatusCode) if text == "" { text = "status code " + strconv.Itoa(res.StatusCode) } } else { text = strings.TrimPrefix(text, strconv.Itoa(res.StatusCode)+" ") }`
 	if strings.Join(strings.Fields(textSrc), " ") != wantText {
 		return fmt.Errorf("writeHeaderOnlyResponse: computation of the reason text %q is not the shape the model knows", textSrc)
